@@ -6,8 +6,8 @@ import Agd.Driver.Util
 cfg <nMain> <nFb> <backoff>                    -> ok          (state := NewHandler state)
 cfg <nMain> <nFb> <backoff> <probes|->         -> like rf     (NewHandler with its initial health check at time 0)
 q <main|-> <fb|-> <om,om,…|-> <ofb,ofb,…|->    -> a<tok>|sf  followed by the calls (m<u>, f<f>)
-rf <now> <probes|->                            -> act=… lf=… probed=… err=0|1
-rb <now> <probes|->                            -> ok          (a round begins; queries may arrive)
+rf <now> <probes|-> [dead]                     -> act=… lf=… probed=… err=0|1   (dead: the context is done from the start)
+rb <now> <probes|-> [dead]                     -> ok          (a round begins; queries may arrive)
 qi <u> <main|-> <fb|-> <om…> <ofb…>            -> like q      (a query while the loop is at upstream u)
 re                                             -> like rf, plus seq=<q|p<u>|end,…> (the round's events)
 x <any|udp|tcp> <udpwire> <tcpwire>            -> ok<tok>|net|eof|other tcp=0|1 probe=0|1
@@ -20,7 +20,8 @@ xb <any|udp|tcp> <reqId> <hexname> <reqType> <udpraw> <tcpraw>
 buffer that now holds `<hex>`: the reply followed by what was left of the packed request), or `<first>><second>`
 for the two attempts of `exchangeNet`; names travel as the hex of their presentation form.
 A probe is `1`/`0` (succeeded / failed), `r<rcode>` (a response with that RCODE), `e` (an error),
-`z` (nil, nil) or `w.<net>.<udpwire>.<tcpwire>` (a plain upstream; `checkUpstream` of the exchange).
+`z` (nil, nil), `h` (the upstream never answers: the probe fails when the context of the round is done, and it is
+done for every upstream after it) or `w.<net>.<udpwire>.<tcpwire>` (a plain upstream; `checkUpstream` of the exchange).
 A wire may be `<first>><second>`: the two attempts of `exchangeNet`; modifiers `sf nx rf` set the RCODE.
 `<main>`/`<fb>` are the upstreams the implementation was seen to pick (the random choice is
 an input of the model).  An outcome is `r<tok>`, `n` (net.Error), `o` (other error), `z`
@@ -106,9 +107,14 @@ def probeOk (s : String) : Bool :=
     | ["w", n, u, t] => checkUpstream (exchange (net n) reqId reqQ (wire 1 u) (wire 1 t)).1.probe
     | _ => false
 
-def probes (now : Int) (s : String) : Nat → Probe :=
-  let l := if s == "-" then [] else (s.splitOn ",").map probeOk
-  fun u => { tCheck := now, ok := l.getD u false, tFail := now }
+/-- The probes of a round at `now` from the state `lf`: a token per main upstream (`h` = the upstream
+never answers and so uses up the time of the round); `dead0` = the context was done from the start.
+Whether the context is done when the loop reaches an upstream is `Agd.Forward.deadBefore`. -/
+def probes (b : Int) (lf : Nat → Option Int) (now : Int) (dead0 : Bool) (s : String) : Nat → Probe :=
+  let l := if s == "-" then [] else s.splitOn ","
+  probesOf b lf now dead0 fun u =>
+    let t := l.getD u "0"
+    if t == "h" then .hang else if probeOk t then .ok else .fail
 
 def showCall : Call → String
   | .main u => s!"m{u}"
@@ -197,7 +203,7 @@ def step (s : S) : List String → S × String
     ({ cfg := c, st := (St.new c none).1 }, "ok")
   | ["cfg", n, f, b, init] =>
     let c : Cfg := { nMain := nat! n, nFb := nat! f, backoff := int! b }
-    let r := St.new c (some (probes 0 init))
+    let r := St.new c (some (probes c.backoff (fun _ => none) 0 false init))
     ({ cfg := c, st := r.1 }, showState c r.1 r.2)
   | ["q", pm, pf, om, ofb] =>
     match qargs s pm pf om ofb with
@@ -205,11 +211,18 @@ def step (s : S) : List String → S × String
     | some q => (s, showOut (serve s.cfg s.st q.pick q.om q.pickFb q.ofb))
   | ["rf", now, oks] =>
     if s.round.isSome then (s, "bad-op") else
-    let r := refresh s.cfg s.st (probes (int! now) oks)
+    let r := refresh s.cfg s.st (probes s.cfg.backoff s.st.lastFailed (int! now) false oks)
+    ({ s with st := r.1 }, showState s.cfg r.1 r.2.1)
+  | ["rf", now, oks, dead] =>
+    if s.round.isSome then (s, "bad-op") else
+    let r := refresh s.cfg s.st (probes s.cfg.backoff s.st.lastFailed (int! now) (dead == "dead") oks)
     ({ s with st := r.1 }, showState s.cfg r.1 r.2.1)
   | ["rb", now, oks] =>
     if s.round.isSome then (s, "bad-op") else
-    ({ s with round := some (probes (int! now) oks, []) }, "ok")
+    ({ s with round := some (probes s.cfg.backoff s.st.lastFailed (int! now) false oks, []) }, "ok")
+  | ["rb", now, oks, dead] =>
+    if s.round.isSome then (s, "bad-op") else
+    ({ s with round := some (probes s.cfg.backoff s.st.lastFailed (int! now) (dead == "dead") oks, []) }, "ok")
   | ["qi", u, pm, pf, om, ofb] =>
     match s.round with
     | none => (s, "bad-op")
